@@ -85,12 +85,16 @@ CHECKS["C15"] = dict(
 
 CHECKS["C08"] = dict(
     engine="spec/values", category="model_checking",
-    technique="TLA+ function-style specification of the value codec over value classes (ValueCodec.tla): TLC enumerates every "
-              "request (family x data kind x operation x source dtype/form x <=2 element classes x length relation), checks "
-              "RoundTrip, UnrepresentableRejected, NaNIsFloatNDV, IntGapIsIntNDV, BooleansAreBits, KeyZeroIsUnknown, LengthRule on "
-              "the specified outcome and exports it; the harness instantiates each class with boundary and seeded random members "
-              "and replays every request through add_data / values setter / value_map / add_comment / metadata / add_file on a "
-              "real file, comparing verdict, live value, raw HDF5 datasets and the value after re-open",
+    technique="TLA+ function-style specification of the value codec over value classes (spec/values/ValueCodec.tla): TLC enumerates "
+              "every request (family x data kind x operation x source dtype/form x <=2 element classes x length relation; value-map "
+              "operation shapes incl. in-place edit + assign back; host geometry class x session (creating / re-opened before the "
+              "geometry was touched) for the length rule; concatenated drillhole float channels under scenarios that remove / append / "
+              "overwrite other holes between write and first read), checks RoundTrip, UnrepresentableRejected, NaNIsFloatNDV, "
+              "IntGapIsIntNDV, BooleansAreBits, KeyZeroIsUnknown, MapWritten, LengthRule, TooLongRejected, ConcatGapsStayGaps on the "
+              "specified outcome and exports it; the harness instantiates each class with boundary and seeded random members and "
+              "replays every request through the public API on real files (up to three sessions per file), comparing verdict, live "
+              "value, raw HDF5 datasets and the value after re-open; six named as-built deviations serve as negative controls and as "
+              "exact signatures of known defects",
     text="Model checking of the class abstraction (exhaustive over the class table of the cfg) + replay of concrete "
          "representatives of every class into the implementation; a wrong answer is attributed to a recorded finding only when "
          "it equals the prediction of the named deviation.",
